@@ -298,10 +298,19 @@ func (x *executor) checkFrameRef(m *machine, fr *frame, in ssa.Instruction, heap
 		return
 	}
 	// fresh (negative numeral) references allocated on this path are always writable at function level
-	allowed := func(set []modTarget, mark int64) *T {
+	allowed := func(set []modTarget, mark *T) *T {
 		var alts []*T
 		// allocated after mark
-		alts = append(alts, app("<", "Bool", ref, refConst(-mark)))
+		lt := app("<", "Bool", ref, mark)
+		if a, ok := numeralValue(ref); ok {
+			if b, ok2 := numeralValue(mark); ok2 {
+				lt = tFalse
+				if a.Cmp(b) < 0 {
+					lt = tTrue
+				}
+			}
+		}
+		alts = append(alts, lt)
 		for _, mt := range set {
 			if mt.heap == heap && mt.sort == sort {
 				alts = append(alts, mkEq(ref, mt.ref))
@@ -314,7 +323,7 @@ func (x *executor) checkFrameRef(m *machine, fr *frame, in ssa.Instruction, heap
 		ownAlloc = true // allocated by this call: always writable at function level
 	}
 	if !ownAlloc {
-		g := allowed(x.modSet, 0)
+		g := allowed(x.modSet, refConst(0))
 		x.oblige(m, "frame", x.instrName(fr, in, "frame"), g, nil, "store target is in the function's modifies clause")
 	}
 	// enclosing loops (of every frame on the stack) that are still being executed
